@@ -86,6 +86,14 @@ CHECKS = {
          'interpreter; server-side oracles (secrets only after their prompt, True only with the unique prompt set, raise => closed, time budget, prompt() delimits); real fake-ssh processes.',
          'Partial: True with auto_prompt_reset=False and sync_original_prompt=False on a TIMEOUT outcome is a known finding (upstream heuristic). The level is the answer of each '
          'expect call (C02/C03 tie an answer to the stream); levenshtein similarity is modelled exactly (rational comparison instead of float, equal below 10^15 characters).', '4/C17'),
+ 'C14': ('Theorems C14.* over the PatternWaiter model (expect_async + protocol callbacks over the same Expecter functions, transport pause/resume/close explicit): '
+         'async_call_eq_sync_call / async_final_eq_sync_final (same events => same outcome, state, unread events), paused_when_idle, closed_only_by_eof, '
+         'done_window_data_conserved, mixed_history_eq_sync and mixed_history_conserves (any interleaving of blocking and awaited calls = the all-blocking history; C01 holds for it), '
+         'mixed_history_paused, async_timeout_bound; witnesses timeout_zero_diverges and eof_after_done_wipes_pending for the two known findings. Tie: the real asyncio path '
+         '(SelectorEventLoop + unix read-pipe transport + wait_for) on pipes and ptys under a virtual-time selector, compared call by call (index/exception, before, after, match, '
+         'buffer, duration) with an all-blocking twin fed the same arrival schedule; recorded loop events replayed through the Lean model of mixed histories.',
+         'Partial: awaited calls with timeout=0 and an EOF delivered while no call is outstanding are known findings (excluded from the parity theorem by construction of the model: '
+         'acall0 / doneEofPre are separate definitions). Parity is judged up to and including the first EOF.', '4/C14'),
 }
 PENDING = {}
 for i in range(5, 21):
